@@ -196,7 +196,7 @@ class PerceptionEvaluationManager(_EvaluationMangerBase):
         for frame in self.frame_results:
             obj_result_dict = divide_objects(frame.object_results, target_labels)
             num_gt_dict = divide_objects_to_num(frame.frame_ground_truth.objects, target_labels)
-            for label in target_labels:
+            for label in all_frame_results:
                 all_frame_results[label].append(obj_result_dict[label])
                 all_num_gt[label] += num_gt_dict[label]
             used_frame.append(int(frame.frame_name))
